@@ -207,17 +207,8 @@ def check_rank_lists(rep, repo, rule='C03.R4'):
     except Unknown as u:
         rep.inconclusive(rule, f.where, 'set_rank_lists is inside the interpreted fragment', got=str(u))
         return
-    # size: range(<max rank>) where max rank is a max-fold of rank_student over all pairs starting at 0
-    inits = [e for e, c in iter_effects(effs) if e.kind == 'store' and e.target == A(lp.MODEL, 'rank_lists')]
-    size = None
-    if len(inits) == 1 and inits[0].value[0] == 'comp' and len(inits[0].value[1]) == 1:
-        dom = inits[0].value[1][0][0][3]
-        if dom[0] == 'call' and dom[1] == S('range') and len(dom[2]) == 1:
-            size = dom[2][0]
-    ok = size is not None and is_max_rank_fold(size)
-    rep.check(ok, rule, f.where, 'rank_lists has one slot per rank up to the maximum student rank', got=show(size)[:200] if size is not None else 'no initialiser',
-              want='max over all pairs of rank_student (0 if none)', construct='rank_lists size')
-    check_scatter(rep, rule, f, effs, 'rank_lists', '_get_max_rank()', 'rank_student', 1, sizeterm=size)
+    from ..shapes import is_max_fold
+    check_scatter(rep, rule, f, effs, 'rank_lists', 'maximum rank', 'rank_student', 1, size_ok=lambda t: is_max_fold(t, 'rank_student', 0))
     # users index with r - 1
     for crit in ('GENEROUS', 'GREEDY'):
         r = lpfacts.get_run(repo, False, False, [lpfacts.crit_config(crit, 0)])
